@@ -39,7 +39,7 @@ ASSUMPTIONS = [
 ]
 EXHAUSTIVE = "all junk strings of length <= 3 over the 15-character alphabet, each in a ~V, ~W, ~P and custom section"
 REQUIRED = ["reads_with_flag", "reads_without_flag", "without_flag_header_errors", "genuine_items_checked",
-            "data_comparisons", "plans_with_repeated_junk_line", "plans_with_many_junk_lines_in_one_section", "section_V", "section_W", "section_P", "section_X"]
+            "data_comparisons", "plans_with_repeated_junk_line", "plans_with_many_junk_lines_in_one_section", "reads_of_files_by_path", "section_V", "section_W", "section_P", "section_X"]
 SOFT_DEADLINE = {"quick": 90, "thorough": 1500}
 LEVEL_TEXT = ("Fault enumeration: the short junk-line space is enumerated completely at every section kind; longer lines are "
               "sampled; each faulty file is compared with its junk-free base (conservation of genuine items and data).")
@@ -104,6 +104,12 @@ def grid(tier):
         yield {"base": "gen", "vers": "2.0", "junk": batch, "seed": 0, "each_section": True}
     for n, ch in ((5000, "x"), (5000, ":"), (5000, "."), (5000, " a"), (5000, ".:"), (3000, "a.b :")):
         yield {"base": "gen", "vers": "2.0", "junk": [(ch * n)[:n]], "seed": n, "each_section": True}
+    # files read by path: junk that looks like another encoding's escape sequences, and enough ASCII junk to push the first
+    # non-ASCII byte of the file out of any sniffing window
+    for jk, junk in enumerate((["FOO. ~{ab~} : junk"], ["zz ~{ab~} zz"], ["FOO. +AOkA6Q- : x"], ["BAR. =?utf-8?b?w6k=?= : y"], ["plain junk"])):
+        yield {"base": "gen", "vers": "2.0", "junk": junk, "seed": 6000 + jk, "each_section": True, "via_path": True, "nonascii": True}
+    for n in (60, 130):
+        yield {"base": "gen", "vers": "2.0", "junk": ["ascii junk line %s" % ("y" * 40)], "seed": 6100 + n, "each_section": True, "flood": n, "via_path": True, "nonascii": True}
     for n in (6, 19, 20, 21, 22, 33, 64, 65, 129, 300):
         for jk, junk in enumerate((["no separator here", "junk", "!!!", "(x)"], ["X.Y 1 : z"], ["a.b : c", "plain words", "Q : r", "..", "k .u 5 : d"])):
             if jk and n > 40:
@@ -141,6 +147,12 @@ def random_case(rng, tier):
         if os.path.getsize(fn) < 60000:
             return {"base": os.path.relpath(fn, env.REPO), "junk": junk, "seed": rng.randrange(10 ** 9), "each_section": False}
     c = {"base": "gen", "vers": rng.choice(["1.2", "2.0"]), "junk": junk, "seed": rng.randrange(10 ** 9), "each_section": False}
+    if rng.random() < 0.2:
+        # by path, with non-ASCII genuine text: lasio's encoding detection sits between the junk and the parser
+        c.update(via_path=True, nonascii=rng.random() < 0.7)
+        if rng.random() < 0.5:
+            c["junk"] = c["junk"] + [rng.choice(["~{", "~}", "+AOk-", "=?", "\x1b$B"[1:], "&#233;", "%C3%A9", "\\u00e9"]).join(
+                rng.choice(["FOO. ", "zz ", "A.B 1 : ", "q"]) for _ in range(rng.randint(2, 4)))]
     if rng.random() < 0.1:
         c.update(each_section=True, flood=rng.choice([7, 20, 21, 25, 50, 100, 128, 129, 256, 257, 500]))
         if any("." in j or ":" in j for j in junk):
@@ -172,6 +184,14 @@ def snapshot(las):
     return items, [canon.carray(c.data) for c in las.curves]
 
 
+def _as_ascii_reader_sees(x):
+    if isinstance(x, str):
+        return x.encode("utf-8").decode("ascii", "replace")
+    if isinstance(x, tuple):
+        return tuple(_as_ascii_reader_sees(v) for v in x)
+    return x
+
+
 def subsequence(genuine, observed):
     i = 0
     for o in observed:
@@ -186,6 +206,8 @@ def run_case(case, ctx):
     rng = random.Random(case["seed"])
     if case["base"] == "gen":
         text = base_text(case["vers"], case["seed"] % 5)
+        if case.get("nonascii"):
+            text = text.replace("ACME OIL", "SOCIÉTÉ ÅSGÅRD").replace("DEGC", "°C")
     else:
         try:
             with open(os.path.join(env.REPO, case["base"]), encoding="utf-8") as f:
@@ -195,7 +217,15 @@ def run_case(case, ctx):
             return
     mc = ["preserve", "upper", "lower"][case["seed"] % 3]
     try:
-        base = lasio.read(text, mnemonic_case=mc)
+        if case.get("via_path"):
+            # the junk-free base travels the same channel as the faulty file
+            os.makedirs(ctx.scratch, exist_ok=True)
+            bpath = os.path.join(ctx.scratch, "c19-base-%d.las" % (case["seed"] % 100000))
+            with open(bpath, "w", encoding="utf-8", newline="\n") as fh:
+                fh.write(text)
+            base = lasio.read(bpath, mnemonic_case=mc)
+        else:
+            base = lasio.read(text, mnemonic_case=mc)
     except Exception:
         ctx.count("base_unreadable")
         return
@@ -247,8 +277,19 @@ def run_case(case, ctx):
         # ---- with the flag ----------------------------------------------------------------------------------------
         ctx.count("reads_with_flag")
         _skipped[0] = 0
+        source = jtext
+        if case.get("via_path"):
+            # the same text as a UTF-8 file read by name: the default channel, with lasio's own encoding detection in the way
+            os.makedirs(ctx.scratch, exist_ok=True)
+            source = os.path.join(ctx.scratch, "c19-%d.las" % (case["seed"] % 100000))
+            with open(source, "w", encoding="utf-8", newline="\n") as fh:
+                fh.write(jtext)
+            ctx.count("reads_of_files_by_path")
+            first_na = next((k for k, b in enumerate(jtext.encode("utf-8")) if b > 127), None)
+            if first_na is not None and first_na >= 4000:
+                ctx.count("path_reads_with_first_nonascii_byte_beyond_4000")
         try:
-            las = lasio.read(jtext, ignore_header_errors=True, mnemonic_case=mc)
+            las = lasio.read(source, ignore_header_errors=True, mnemonic_case=mc)
         except Exception as e:
             ctx.violation("flag-set-read-raised:%s:%s" % (type(e).__name__, "+".join(sorted({k for _, k, *_ in plan}))),
                           "read(ignore_header_errors=True) raised %r" % (e,), detail)
@@ -266,7 +307,13 @@ def run_case(case, ctx):
                 ctx.count("genuine_items_checked", len(gen))
                 if obs is None or isinstance(obs, str) or not subsequence(gen, obs):
                     missing = [g for g in gen if obs is None or isinstance(obs, str) or g not in obs]
-                    ctx.violation("genuine-item-changed-or-dropped" if missing else "genuine-items-reordered",
+                    mech = "genuine-item-changed-or-dropped" if missing else "genuine-items-reordered"
+                    if (case.get("via_path") and first_na is not None and first_na >= 4000 and isinstance(obs, list)
+                            and subsequence([_as_ascii_reader_sees(g) for g in gen], obs)):
+                        # every genuine item is there, in order, and differs only by U+FFFD where the file has non-ASCII
+                        # bytes: the junk pushed the first of them out of the 4000 bytes lasio shows its encoding detector
+                        mech = "path-read-junk-pushes-first-nonascii-byte-out-of-sniff-window"
+                    ctx.violation(mech,
                                   "section %r: genuine items %r are no longer present unchanged / in order (now %r)" % (
                                       name, missing[:3], (obs or [])[:6]), detail)
             for name in items:
